@@ -898,8 +898,15 @@ fn gen_streams(rng: &mut Rng, with_faults: bool) -> StreamCase {
             i
         ));
     }
-    let nstreams = [0u8, 1, 15, 7, 3];
-    let ns = 1 + rng.below(nstreams.len());
+    // Usually a handful of stream numbers (so that they interleave densely); one run in five uses
+    // all sixteen.
+    let all16 = rng.chance(1, 5);
+    let nstreams: Vec<u8> = if all16 {
+        (0u8..16).collect()
+    } else {
+        vec![0u8, 1, 15, 7, 3]
+    };
+    let ns = if all16 { 16 } else { 1 + rng.below(nstreams.len()) };
     let nops = 2 + rng.below(30);
     let mut ops = vec![];
     let mut depth = 0;
